@@ -125,6 +125,12 @@ def run_instance(inst):
             # layout (degrees) with a few concrete thresholds (metres)
             cands = [([(0.00001 * (3 * i + k) - 0.2 * (k == 3), 0.3 * i + 0.2 * k) for i in range(T)], thr)
                      for k in range(4) for thr in (dict(max_dist=50000.0), dict(max_dist=10.0))]
+            # repeated observations (a stationary vehicle: same position, later timestamp) and observations exactly on a node
+            node0 = tuple(greal.LAYOUTS[lay][0][sorted(greal.LAYOUTS[lay][0])[0]][0]) if lay in greal.LAYOUTS else None
+            reps = [[(0.00002, 0.1)] * T, [(0.00002, 0.1)] * max(T - 1, 1) + [(0.00003, 0.6)] * (1 if T > 1 else 0), [(0.0, 0.0)] * T]
+            if node0 is not None:
+                reps.append([node0] * T)
+            cands += [(rp[:T], thr) for rp in reps for thr in (dict(max_dist=50000.0),)]
         else:
             cands = [(greal.concrete_path(model, pairs), threshold_values(model, cfg))]
         for cp, thr in cands:
